@@ -188,6 +188,9 @@ def read_text_state(target):
         return None
 
 
+LEAF_REPEATS = int(os.environ.get("VERIF_C17_LEAF_REPEATS", "2"))   # 0 = execute every leaf of the deepest level
+
+
 def hist_worker(item):
     entry, init, prefix, max_len, with_broken = item
     sb = C.Sandbox({"content": init})
@@ -273,10 +276,20 @@ def hist_worker(item):
                 break
             state = read_text_state(sb.target)
         if ok:
+            leaf_seen = {}
+
             def dfs(state, depth, hist):
                 if depth >= max_len:
                     return
                 for st in steps:
+                    if LEAF_REPEATS and max_len >= 5 and depth == max_len - 1 and st[0] not in ("X", "XB"):
+                        # deepest level of the long plans: every distinct (file state, call) below this worker's prefix is
+                        # executed from at most LEAF_REPEATS different histories (all shallower nodes: from every history)
+                        kk = (state, st)
+                        if leaf_seen.get(kk, 0) >= LEAF_REPEATS:
+                            out["dist"]["leaf-deduplicated"] = out["dist"].get("leaf-deduplicated", 0) + 1
+                            continue
+                        leaf_seen[kk] = leaf_seen.get(kk, 0) + 1
                     if read_text_state(sb.target) != state:
                         write_state(sb.target, state)
                     r = do_step(state, st, depth, hist)
@@ -566,7 +579,9 @@ def loop_worker(item):
 
 def run(ctx: vlib.Ctx):
     ctx.rule = ("histories: every sequence of length <= L over {W,C,N,D} x {none,cur,stale,future} + external modification, from the "
-                "initial states {existing file, absent}; one real call per trie node; distinct = distinct history prefix; "
+                "initial states {existing file, absent}; one real call per trie node (deepest level of the length-5 plans: every "
+                "distinct (file state, call) below each 2-step prefix from at most VERIF_C17_LEAF_REPEATS=2 histories; 0 = all); "
+                "distinct = distinct history prefix; "
                 "non-trivial = the step is a tool call (not an external modification). interleavings: case = (writer pair, schedule)")
     F.preload()   # pool workers are forked from this process: they inherit the imported implementation
     ctx.translate(PROJECT)
@@ -693,6 +708,29 @@ def run(ctx: vlib.Ctx):
                     ctx.corr_disagreements.append({"case": {"entry": entry, "history": d[k]["hist"], "state_step": json.loads(k)[:3]},
                                                    "model": {"res": mres, "code": mcode}, "impl": ob[:3], "view": "; ".join(dis)})
     ctx.extra["distinct_state_call_pairs_checked_against_lean_model"] = n_model
+
+    # ---- natural failures (no injected fault): a directory sits at the target path --------------------------------
+    if not replay_case:
+        for entry in ("tool", "atomic", "cli"):
+            for bh in ("none", "cur"):
+                sb = C.Sandbox({"content": None, "target_is_dir": True})
+                try:
+                    before = F.snapshot(sb.root)
+                    a = {"target_path": sb.target, "content": content_w(0)}
+                    if bh == "cur":
+                        a["base_hash"] = C.sha("")
+                    res = F.run_inproc(entry, a, sb.root, sb.target, C.SRC_ROOT, {})["result"]
+                    after = F.snapshot(sb.root)
+                    case = {"natural-failure": "target is a directory", "entry": entry, "base_hash": bh}
+                    ctx.case(case)
+                    ctx.count(f"natural:{entry}:{(res or {}).get('status')}:{(res or {}).get('code')}")
+                    if res is None or res.get("status") == "success":
+                        ctx.failures.append({"case": case, "why": "a write onto a directory answered success", "why_class": "natural-success", "observed": res})
+                    elif after != before:
+                        ctx.failures.append({"case": case, "why": f"status={res.get('status')} {res.get('code')} but the file system changed: "
+                                             f"{sorted(set(after) ^ set(before))}", "why_class": "error-changed", "observed": res})
+                finally:
+                    sb.cleanup()
 
     # ---- two writers -------------------------------------------------------------------------------------------
     pitems = []
